@@ -37,6 +37,14 @@ CONDS = {
     'true': lambda L: ast.BoolValue(True, None),
     'false': lambda L: ast.BoolValue(False, None),
     'int-to-bool': lambda L: ast.IntToBool(L.opaque('a')),
+    # the cast chains Expression.cast builds for `x is bool` / truthiness of non-bool conditions
+    'byte-is-bool': lambda L: ast.IntToBool(ast.ByteToInt(L.opaque('a', Y))),
+    'int-is-byte-is-bool': lambda L: ast.IntToBool(ast.ByteToInt(ast.IntToByte(L.opaque('a')))),
+    'local-int-is-byte-is-bool': lambda L: ast.IntToBool(ast.ByteToInt(ast.IntToByte(L.local('a')))),
+    'not-int-is-byte-is-bool': lambda L: ast.Not(None, ast.IntToBool(ast.ByteToInt(ast.IntToByte(L.opaque('a'))))),
+    'bool-is-int-is-bool': lambda L: ast.IntToBool(ast.ByteToInt(ast.BoolToByte(L.opaque('c', B)))),
+    'string-is-bool': lambda L: ast.IntToBool(ast.LengthLookup(L.string_operand('s', 'opaque'), SPAN.end)),
+    'sum-is-byte-is-bool': lambda L: ast.IntToBool(ast.ByteToInt(ast.IntToByte(ast.Add(None, L.opaque('a'), L.opaque('b'))))),
 }
 
 
